@@ -370,16 +370,6 @@ struct dt_d_s UNREACH_dt_dadd_m(struct dt_d_s d, int n) UNREACH_CONTRACT;
 struct dt_d_s UNREACH_dt_dadd_y(struct dt_d_s d, int n) UNREACH_CONTRACT;
 
 /* ---- dispatchers in date-core.c */
-#define PRE_dt_dfixup(d) (V_d(d))
-#define POST_dt_dfixup_valid(ret, d) (!V_d(d) || ((ret).u == (d).u && (ret).typ == (d).typ && (ret).param == (d).param && (ret).fix == (d).fix && (ret).neg == (d).neg))
-struct dt_d_s dt_dfixup(struct dt_d_s d)
-VERIF_CONTRACT(__CPROVER_requires(PRE_dt_dfixup(d)) __CPROVER_ensures(POST_dt_dfixup_valid(RV, d)) __CPROVER_assigns());
-#define POST_dt_dfixup(ret, d) POST_dt_dfixup_valid(ret, d)
-
-#define PRE_dt_conv_to_daisy(t) (V_d(t))
-#define POST_dt_conv_to_daisy(ret, t) ((int)(ret) == A_d(t))
-dt_daisy_t dt_conv_to_daisy(struct dt_d_s that)
-CONTRACT(PRE_dt_conv_to_daisy(that), POST_dt_conv_to_daisy(RV, that));
 #define PRE_dt_conv_to_ymd(t) (V_d(t))
 #define POST_dt_conv_to_ymd(ret, t) (V_YMD(ret) && SAME_T_D(YMD, ret, t))
 static dt_ymd_t dt_conv_to_ymd(struct dt_d_s that)
@@ -397,37 +387,5 @@ CONTRACT(PRE_dt_conv_to_ywd(this), POST_dt_conv_to_ywd(RV, this));
 static dt_yd_t dt_conv_to_yd(struct dt_d_s this)
 CONTRACT(PRE_dt_conv_to_yd(this), POST_dt_conv_to_yd(RV, this));
 
-#define V_TGT(t) ((t) == DT_YMD || (t) == DT_YMCW || (t) == DT_YWD || (t) == DT_YD || (t) == DT_DAISY || (t) == DT_LDN || (t) == DT_MDN)
-#define PRE_dt_dconv(tgt, d) (V_d(d) && V_TGT(tgt))
-/* for day-number targets the range of the result follows from SAME_d and spec lemma L_range (valid civil values denote days 1..911280) */
-#define POST_dt_dconv(ret, tgt, d) ((ret).typ == (tgt) && (!CIVIL_T(tgt) || V_d(ret)) && SAME_d(ret, d))
-struct dt_d_s dt_dconv(dt_dtyp_t tgttyp, struct dt_d_s d)
-CONTRACT(PRE_dt_dconv(tgttyp, d), POST_dt_dconv(RV, tgttyp, d));
-
-/* getters on the sum type: value == field of the civil date of A(d), whatever the representation */
-#define PRE_dt_get_wday(t) (V_d(t) && ((t).typ == DT_YMD || (t).typ == DT_YMCW || (t).typ == DT_DAISY || (t).typ == DT_YWD))
-#define POST_dt_get_wday(ret, t) ((int)(ret) == W_d(t))
-dt_dow_t dt_get_wday(struct dt_d_s that)
-CONTRACT(PRE_dt_get_wday(that), POST_dt_get_wday(RV, that));
-/* civil field getters: for civil values in terms of the (GY, GYD) pair, for day numbers via the year of the day number */
-#define Y_OF(t) ((t).typ == DT_DAISY ? S_daisy_year(A_d(t)) : GY_d(t))
-#define YD_OF(t) ((t).typ == DT_DAISY ? A_d(t) - S_JAN00(S_daisy_year(A_d(t))) : GYD_d(t))
-#define PRE_dt_get_year(t) (V_d(t) && ((t).typ == DT_YMD || (t).typ == DT_YMCW || (t).typ == DT_DAISY))
-#define POST_dt_get_year(ret, t) ((ret) == Y_OF(t))
-int dt_get_year(struct dt_d_s that)
-CONTRACT(PRE_dt_get_year(that), POST_dt_get_year(RV, that));
-#define PRE_dt_get_mon(t) (V_d(t) && ((t).typ == DT_YMD || (t).typ == DT_YMCW || (t).typ == DT_DAISY || (t).typ == DT_YWD))
-#define POST_dt_get_mon(ret, t) ((ret) == S_mon_of_yday(Y_OF(t), YD_OF(t)))
-int dt_get_mon(struct dt_d_s that)
-CONTRACT(PRE_dt_get_mon(that), POST_dt_get_mon(RV, that));
-#define PRE_dt_get_mday(t) (V_d(t) && ((t).typ == DT_YMD || (t).typ == DT_YMCW || (t).typ == DT_DAISY))
-#define POST_dt_get_mday(ret, t) ((ret) == S_mday_of_yday(Y_OF(t), YD_OF(t)))
-int dt_get_mday(struct dt_d_s that)
-CONTRACT(PRE_dt_get_mday(that), POST_dt_get_mday(RV, that));
-/* dt_get_yday: documented as day-of-year for ymd/daisy; for ywd it is the raw ISO yday (may be <1 / >ydays) */
-#define PRE_dt_get_yday(t) (V_d(t) && ((t).typ == DT_YMD || (t).typ == DT_DAISY || (t).typ == DT_YWD))
-#define POST_dt_get_yday(ret, t) ((t).typ == DT_YWD ? ((int)(ret) == S_YWD_RAWYD((int)(t).ywd.y, (int)(t).ywd.c, (int)(t).ywd.w)) : ((int)(ret) == YD_OF(t)))
-unsigned int dt_get_yday(struct dt_d_s that)
-CONTRACT(PRE_dt_get_yday(that), POST_dt_get_yday(RV, that));
-
+#include "date-core.public.h"
 #endif
